@@ -148,7 +148,23 @@ def r51_tables(db, ctx):
             ctx.fail('R5.1e', f, 'from_char', '; '.join(why) or f'{len(t)} paths')
 
 
+def r57(db, ctx):
+    ctx.rule('R5.7', 'text entry points hand the whole input to the encoder: FromStr::from_str(s) is Self::encode(s) and EncodedSequence::encode(s) is '
+                     'Pipeline::dispatch().encode(s.as_ref()) — nothing is trimmed, skipped or normalised on the way')
+    n = 0
+    fs = [f for f in db.fns.values() if f.path.startswith('<lightmotif::seq::EncodedSequence<A> as core::str::traits::FromStr>::from_str') and not f.promoted_of and f.kind == 'AssocFn']
+    for f in fs:
+        if common.forwards(db, ctx, 'R5.7', f, ['EncodedSequence::encode'], {0: ('p', 1)}, 'from_str -> encode'):
+            n += 1
+    gs = [f for f in db.fns.values() if f.path.startswith('lightmotif::seq::EncodedSequence::') and f.name == 'encode' and not f.promoted_of and f.kind == 'AssocFn']
+    for f in gs:
+        if common.forwards(db, ctx, 'R5.7', f, ['Encode::encode'], {1: ('p', 1)}, 'EncodedSequence::encode -> Pipeline::encode'):
+            n += 1
+    ctx.floor('R5.7', n, 2, 'text entry points forwarding their whole input')
+
+
 def run(db, ctx):
+    r57(db, ctx)
     r51_tables(db, ctx)
 
 
